@@ -14,7 +14,7 @@ META = dict(
     functions_encoded=['deb.LoadAr', 'deb.checkAr', '(*Ar).Next', 'deb.parseArEntry', 'deb.toDecimal', 'io.NewSectionReader', '(*io.SectionReader).Read/ReadAt/Seek/Size',
                        'strconv.Atoi', 'strings.TrimSpace', 'strings.TrimSuffix (model)', 'bytes.Reader', 'io.ReadAll'],
     stubs=['io.ReaderAt for the inductive step: serves the 60 header bytes at the current offset and records the offsets asked for (harness verifHdrAt)', 'fmt.Errorf (opaque error)'],
-    bounds={'quick': 'one inductive step: any offset in [0, 2^62), a well-formed header with a name of every length 1-16 (symbolic characters, optional trailing /), one numeric field at a time with 0..width symbolic digits (the others blank or concrete), plus all four with up to 3 digits; global magic: any 8-9 bytes; end-to-end: 0-3 members with sizes 0-3 (odd and even), symbolic names and data bytes',
+    bounds={'quick': 'one inductive step: any offset in [0, 2^62), a well-formed header with a name of every length 1-16 (symbolic characters, optional trailing /, also with a / inside the name), one numeric field at a time with 0..width symbolic digits (the others blank or concrete), plus all four with up to 3 digits; global magic: any 8-9 bytes; end-to-end: 0-3 members with sizes 0-3 (odd and even), symbolic names and data bytes',
             'thorough': 'two numeric fields at a time at full width; end-to-end with sizes up to 5'},
     outside_claim=['GNU/BSD long-name extensions (not in the statement)', 'names containing blanks'],
     assumptions=['one inductive step from an arbitrary offset covers archives of any member count and sizes: the new offset is, by the format definition, where the next well-formed header lies'])
@@ -34,10 +34,10 @@ def field(sym_prefix, width, ndig, assume, blank_ok=True):
     return tuple(d) + (32,) * (width - ndig), val
 
 
-def header(namelen, slash, digs, assume, mode=b'100644'):
+def header(namelen, slash, digs, assume, mode=b'100644', inner=None):
     name = symstr('nm', namelen)
-    for c in name:
-        assume.append(in_set(c, NAMEC))
+    for i, c in enumerate(name):
+        assume.append(in_set(c, NAMEC) if i != inner else c == 47)     # inner: position of a '/' inside the name
     nf = tuple(name) + ((47,) if slash else ())
     nf = nf + (32,) * (16 - len(nf))
     ts, tsv = field('ts', 12, digs.get('ts', 0), assume)
@@ -57,6 +57,11 @@ def jobs(tier):
             if nl == 16 and slash:
                 continue
             js.append(dict(name='step_name_%d_%d' % (nl, slash), kind='step', namelen=nl, slash=slash, digs={}))
+    for nl in (3, 5, 9, 15):
+        for inner in range(1, nl - 1):
+            for slash in (False, True):
+                if inner % 2 == int(slash) or nl <= 5:
+                    js.append(dict(name='step_slash_%d_%d_%d' % (nl, inner, slash), kind='step', namelen=nl, slash=slash, digs={}, inner=inner))
     for f, w in WIDTHS.items():
         for nd in range(0, w + 1):
             js.append(dict(name='step_%s_%d' % (f, nd), kind='step', namelen=3, slash=True, digs={f: nd}))
@@ -81,7 +86,7 @@ def run_job(env, job):
     k = job['kind']
     assume = []
     if k == 'step':
-        hdr, name, ts, uid, gid, mode, size = header(job['namelen'], job['slash'], job['digs'], assume)
+        hdr, name, ts, uid, gid, mode, size = header(job['namelen'], job['slash'], job['digs'], assume, inner=job.get('inner'))
         off = z3.BitVec('off', 64)
         assume += [off >= 0, off < (1 << 62)]
         return run_harness(env, PKG, 'VerifC13Step', [hdr, off, name, ts, uid, gid, mode, size], assume, unwind=80,
